@@ -25,6 +25,11 @@ ASSUMPTIONS = {
     "A-NP": "value/kind models of the NumPy primitives used on verified paths (where, isnan, minimum, maximum, clip, nan_to_num, full_like, abs, square, ...) - conformance-checked against the installed NumPy on every run",
     "A-NP/interp": "assumed contract of numpy.interp: piecewise-linear interpolation of the table, end values outside it, NaN iff x is NaN (cross-checked by a bounded run-time stand-in)",
     "A-SET": "numeric obligations that read library settings (atol, rtol) are stated for the library's default settings, read from the signature of library.Settings.__init__",
+    "A-LISTVAL": "list-valued fields are values: no list object is shared between two fields (constructors copy with list(...))",
+    "A-ACTVAL": "Activated terms stored in a fuzzy output are immutable values (term, cleaned degree, implication); the real constructor and degree setter are verified against this model in C07",
+    "A-WF": "well-formedness of loaded rules and engines (conclusions have a variable with terms and a term; expression trees are finite and well-formed; a rule occurs once in its block; an output variable owns its fuzzy output) is a heap invariant established by the loaders and constructors",
+    "A-KIND": "Defuzzifier.defuzzify returns an ndarray (np.nditer / item assignment need one); checked per concrete defuzzifier elsewhere",
+    "A-HEAPQ": "heapq.heappush/heappop implement a min-priority queue on tuples",
     "A-PY": "attribute lookup follows the MRO read from the source; no monkey-patching/metaclasses/__getattr__ on verified classes",
     "A-MSG": "building an exception message neither raises nor has effects (message text is not evaluated)",
     "A-LOG": "logging calls neither raise nor mutate library state (dropped by extraction)",
